@@ -236,6 +236,27 @@ func TestStatus(t *testing.T) {
 	if s, ok := status.FromError(fmt.Errorf("wrapped: %w", status.Error(codes.NotFound, "x"))); s == nil || (!ok && s.Code() != codes.Unknown) {
 		t.Fatalf("FromError(wrapped status error): %v %v", s, ok)
 	}
+	// FromError of anything that is not a status error: not ok, code Unknown
+	for _, e := range []error{context.Canceled, context.DeadlineExceeded, io.EOF, io.ErrUnexpectedEOF, errors.New("x")} {
+		if s, ok := status.FromError(e); ok || s == nil || s.Code() != codes.Unknown {
+			t.Fatalf("FromError(%v) = %v %v", e, s, ok)
+		}
+	}
+	// FromContextError: nil -> OK, the two context errors -> their codes, others -> Unknown
+	if s := status.FromContextError(nil); s != nil {
+		t.Fatalf("FromContextError(nil)")
+	}
+	if s := status.FromContextError(context.DeadlineExceeded); s == nil || s.Code() != codes.DeadlineExceeded {
+		t.Fatalf("FromContextError(DeadlineExceeded)")
+	}
+	if s := status.FromContextError(context.Canceled); s == nil || s.Code() != codes.Canceled {
+		t.Fatalf("FromContextError(Canceled)")
+	}
+	for _, e := range []error{io.EOF, io.ErrUnexpectedEOF, errors.New("x"), status.Error(codes.NotFound, "nf")} {
+		if s := status.FromContextError(e); s == nil || s.Code() != codes.Unknown {
+			t.Fatalf("FromContextError(%v) = %v", e, s)
+		}
+	}
 	for _, e := range []error{context.Canceled, context.DeadlineExceeded, io.EOF, io.ErrUnexpectedEOF} {
 		if _, ok := e.(interface{ GRPCStatus() *status.Status }); ok {
 			t.Fatalf("%v is a status error", e)
